@@ -273,13 +273,14 @@ def run(tier, seed):
                         pass
         # model: exact pre-image bytes
         mism = 0
-        for start in range(0, len(pre_terms), 250):
-            chunk = pre_terms[start:start + 250]
-            try:
-                pres = C.coq_eval_nested(HEADER, "map pre_case %s" % C.coq_list(chunk))
-            except Exception as e:
-                rep.broken.append("correspondence C04 (model could not be evaluated): %s" % str(e)[:300])
-                break
+        CH = 60
+        starts = list(range(0, len(pre_terms), CH))
+        try:
+            all_pres = C.coq_eval_nested_many(HEADER, ["map pre_case %s" % C.coq_list(pre_terms[st:st + CH]) for st in starts])
+        except Exception as e:
+            rep.broken.append("correspondence C04 (model could not be evaluated): %s" % str(e)[:300])
+            all_pres, starts = [], []
+        for start, pres in zip(starts, all_pres):
             for i, codes in enumerate(pres):
                 meta = metas[start + i]
                 if codes == [0]:
